@@ -383,6 +383,7 @@ NAMED = {
     'star': {"A": ["B", "C", "D"], "B": ["A"], "C": ["A"], "D": ["A"]},
     'tri_chord': {"A": ["B"], "B": ["C", "D"], "C": ["A"], "D": ["A"]},
     'diamond': {"A": ["B", "C"], "B": ["D"], "C": ["D"], "D": []},
+    'lasso': {"W": ["P"], "P": ["Q"], "Q": ["S"], "S": ["P"]},                      # one-way loop entered from outside
     'diamond6': {"A": ["B", "C"], "B": ["D"], "C": ["D"], "D": ["E"], "E": ["F"], "F": []},   # two routes reconverge, then two more edges
 }
 
